@@ -1138,6 +1138,458 @@ fn clock_stream(a: &Args) {
     s.finish();
 }
 
+
+// ------------------------------------------------------------------------------- topk stream
+
+/// One row of the ghost history of the `topk` stream.
+#[derive(Clone, Debug)]
+struct TRow {
+    ctx: usize,
+    key: u64,
+    flushed: bool,
+}
+
+/// Histories that end in ORDER BY k [DESC] LIMIT n [OFFSET m] reads (unscoped and FOR ctx) in
+/// states where some shards hold only flushed rows, some only memtable rows, some both — the
+/// reads that the top-k planner (`plan_with_rlte`) answers with a per-shard zone map. The
+/// planner knows flushed zones only, so a shard that is absent from the map must still be asked
+/// for its in-memory rows. `event_per_zone = 1`, integer order field without WHERE: the layout
+/// in which the zone pre-selection itself is sound (C10's known finding is excluded).
+/// Compared for equality with the model: the keys of every answer, in answer order.
+fn run_topk_case(a: &Args, i: u64) -> SysOutcome {
+    let mut r = Rng::for_case(a.seed, "topk", i);
+    let n = match r.below(10) {
+        0 => 1,
+        1 | 2 | 3 => 2,
+        4 | 5 => 3,
+        6 => 4,
+        7 => 5,
+        8 => 6,
+        _ => 8,
+    };
+    // split the shards into a group A (flushed first) and a group B (stored to afterwards)
+    let mut in_a = vec![false; n];
+    if n == 1 {
+        in_a[0] = true;
+    } else {
+        let mut idx: Vec<usize> = (0..n).collect();
+        r.shuffle(&mut idx);
+        let na = 1 + r.below(n as u64 - 1) as usize;
+        for &x in &idx[..na] {
+            in_a[x] = true;
+        }
+    }
+    let want_a = 1 + r.below(3) as usize;
+    let want_b = 1 + r.below(3) as usize;
+    let mut ctxs: Vec<String> = vec![];
+    let mut is_a: Vec<bool> = vec![];
+    let salt = r.below(1000);
+    let mut j = 0u64;
+    let (mut have_a, mut have_b) = (0, 0);
+    while (have_a < want_a || have_b < want_b) && j < 5000 {
+        let c = match j % 3 {
+            0 => format!("g{salt}-{j}"),
+            1 => format!("Tenant {salt}/{j}"),
+            _ => format!("ü{salt}·{j}"),
+        };
+        j += 1;
+        let home_a = in_a[spec_route(&c, n)];
+        if n == 1 {
+            // one shard: the two groups share it
+            if have_a < want_a {
+                have_a += 1;
+                ctxs.push(c);
+                is_a.push(true);
+            } else {
+                have_b += 1;
+                ctxs.push(c);
+                is_a.push(false);
+            }
+        } else if home_a && have_a < want_a {
+            have_a += 1;
+            ctxs.push(c);
+            is_a.push(true);
+        } else if !home_a && have_b < want_b {
+            have_b += 1;
+            ctxs.push(c);
+            is_a.push(false);
+        }
+    }
+    let a_ctx: Vec<usize> = (0..ctxs.len()).filter(|c| is_a[*c]).collect();
+    let b_ctx: Vec<usize> = (0..ctxs.len()).filter(|c| !is_a[*c]).collect();
+
+    let root = a.out.join(format!("topk-case-{i}"));
+    let _ = std::fs::remove_dir_all(&root);
+    // capacity 2000 rows: nothing flushes by itself
+    let cfg = SysCfg { shards: n, event_per_zone: 1, fill_factor: 2000, ..Default::default() };
+    let mut out = SysOutcome { op: String::new(), imp: String::new(), fails: vec![], infra: None, tallies: vec![], stores_ok: 0 };
+    let mut sess = Session::start(&root, &cfg);
+    if sess.dead {
+        out.infra = Some("engine child did not start".into());
+        return out;
+    }
+    match sess.cmd("DEFINE ev FIELDS { k: \"int\" }") {
+        Some(rep) if rep.ok() => {}
+        other => {
+            out.infra = Some(format!("DEFINE failed: {other:?}"));
+            return out;
+        }
+    }
+    let mut optoks: Vec<String> = vec![format!("sys {n}")];
+    let mut imps: Vec<String> = vec![];
+    let mut rows: Vec<TRow> = vec![];
+    let mut used: BTreeSet<u64> = BTreeSet::new();
+    out.tallies.push(format!("shards={n}"));
+    // where group B's values lie relative to group A's
+    let b_mode = r.below(3); // 0 below, 1 above, 2 interleaved
+    out.tallies.push(["group B values below A's", "group B values above A's", "group B values interleaved with A's"][b_mode as usize].into());
+
+    // --- helpers as closures over the session are awkward with the borrow checker: macros
+    macro_rules! store {
+        ($c:expr, $lo:expr, $hi:expr) => {{
+            let c: usize = $c;
+            let mut key = $lo + r.below($hi - $lo);
+            while !used.insert(key) {
+                key = $lo + r.below($hi - $lo);
+            }
+            let Some(rep) = sess.cmd(&format!("STORE ev FOR \"{}\" PAYLOAD {{\"k\": {key}}}", ctxs[c])) else {
+                out.infra = Some("child died on STORE".into());
+                return out;
+            };
+            if rep.status_class() != "ok" {
+                out.infra = Some(format!("STORE answered {}: {}", rep.status_class(), rep.raw));
+                return out;
+            }
+            rows.push(TRow { ctx: c, key, flushed: false });
+            out.stores_ok += 1;
+            optoks.push(format!("S:{}:{key}", hexs(&ctxs[c])));
+            imps.push("S=ok".into());
+        }};
+    }
+    macro_rules! flush {
+        () => {{
+            let Some(rep) = sess.cmd("FLUSH") else {
+                out.infra = Some("child died on FLUSH".into());
+                return out;
+            };
+            if !rep.ok() {
+                out.infra = Some(format!("FLUSH answered {}", rep.raw));
+                return out;
+            }
+            for x in rows.iter_mut() {
+                x.flushed = true;
+            }
+            optoks.push("F".into());
+            imps.push("F".into());
+            out.tallies.push("flush".into());
+        }};
+    }
+    let (a_lo, a_hi) = (100_000u64, 200_000u64);
+    let (b_lo, b_hi) = match b_mode {
+        0 => (1u64, 90_000u64),
+        1 => (210_000u64, 300_000u64),
+        _ => (100_000u64, 200_000u64),
+    };
+    let layout = r.below(6);
+    let many = |r: &mut Rng| 25 + r.below(60);
+    let few = |r: &mut Rng| 1 + r.below(6);
+    match layout {
+        0 | 1 => {
+            // group A flushed, group B in memory only
+            for _ in 0..many(&mut r) {
+                store!(*r.pick(&a_ctx), a_lo, a_hi);
+            }
+            flush!();
+            for _ in 0..few(&mut r) {
+                store!(*r.pick(&b_ctx), b_lo, b_hi);
+            }
+            out.tallies.push("layout: A flushed, B memtable only".into());
+        }
+        2 => {
+            for _ in 0..(5 + r.below(40)) {
+                let c = if r.chance(2, 3) { *r.pick(&a_ctx) } else { *r.pick(&b_ctx) };
+                if is_a[c] { store!(c, a_lo, a_hi) } else { store!(c, b_lo, b_hi) }
+            }
+            out.tallies.push("layout: nothing flushed".into());
+        }
+        3 => {
+            for _ in 0..many(&mut r) {
+                let c = if r.chance(2, 3) { *r.pick(&a_ctx) } else { *r.pick(&b_ctx) };
+                if is_a[c] { store!(c, a_lo, a_hi) } else { store!(c, b_lo, b_hi) }
+            }
+            flush!();
+            out.tallies.push("layout: everything flushed".into());
+        }
+        4 => {
+            // A flushed and then more in memory, B memory only
+            for _ in 0..many(&mut r) {
+                store!(*r.pick(&a_ctx), a_lo, a_hi);
+            }
+            flush!();
+            for _ in 0..few(&mut r) {
+                store!(*r.pick(&a_ctx), a_lo, a_hi);
+            }
+            for _ in 0..few(&mut r) {
+                store!(*r.pick(&b_ctx), b_lo, b_hi);
+            }
+            out.tallies.push("layout: A flushed + memtable, B memtable only".into());
+        }
+        _ => {
+            // A flushed, B flushed later, then A in memory again
+            for _ in 0..many(&mut r) {
+                store!(*r.pick(&a_ctx), a_lo, a_hi);
+            }
+            flush!();
+            for _ in 0..(5 + r.below(30)) {
+                store!(*r.pick(&b_ctx), b_lo, b_hi);
+            }
+            flush!();
+            for _ in 0..few(&mut r) {
+                store!(*r.pick(&a_ctx), a_lo, a_hi);
+            }
+            out.tallies.push("layout: two flushes, then A memtable".into());
+        }
+    }
+    let rounds = 1 + r.below(2);
+    for round in 0..rounds {
+        if round > 0 {
+            // a later state of the same engine: restart and / or more rows on either side
+            // a kill is used only while nothing was ever flushed: after a manual FLUSH later WAL
+            // lines may sit in an unlinked file (C01's subject), which is not what is examined here
+            let ever_flushed = rows.iter().any(|x| x.flushed) || optoks.iter().any(|t| t == "F");
+            match (r.below(4), ever_flushed) {
+                (0, false) => {
+                    let t0 = std::time::Instant::now();
+                    let unflushed = rows.iter().filter(|x| !x.flushed).count();
+                    while wal_rows(&root, n).len() < unflushed {
+                        if t0.elapsed().as_millis() > 20000 {
+                            out.infra = Some("WAL did not drain within 20 s before the kill".into());
+                            return out;
+                        }
+                        std::thread::sleep(std::time::Duration::from_millis(5));
+                    }
+                    sess.kill();
+                    sess = Session::start(&root, &cfg);
+                    if sess.dead {
+                        out.infra = Some("engine child did not restart".into());
+                        return out;
+                    }
+                    optoks.push("R".into());
+                    imps.push("R".into());
+                    out.tallies.push("restart: kill".into());
+                }
+                (0, true) | (1, _) => {
+                    if !sess.shutdown() {
+                        out.infra = Some("clean shutdown reported errors".into());
+                        return out;
+                    }
+                    for x in rows.iter_mut() {
+                        x.flushed = true;
+                    }
+                    sess = Session::start(&root, &cfg);
+                    if sess.dead {
+                        out.infra = Some("engine child did not restart".into());
+                        return out;
+                    }
+                    optoks.push("R".into());
+                    imps.push("R".into());
+                    out.tallies.push("restart: clean shutdown".into());
+                }
+                _ => {}
+            }
+            for _ in 0..few(&mut r) {
+                let c = r.below(ctxs.len() as u64) as usize;
+                if is_a[c] { store!(c, a_lo, a_hi) } else { store!(c, b_lo, b_hi) }
+            }
+        }
+        // what kind of state the reads see
+        let shard_state: Vec<(bool, bool)> = (0..n)
+            .map(|sh| {
+                let f = rows.iter().any(|x| x.flushed && spec_route(&ctxs[x.ctx], n) == sh);
+                let m = rows.iter().any(|x| !x.flushed && spec_route(&ctxs[x.ctx], n) == sh);
+                (f, m)
+            })
+            .collect();
+        let only_mem = shard_state.iter().filter(|s| !s.0 && s.1).count();
+        let with_flushed = shard_state.iter().filter(|s| s.0).count();
+        if only_mem > 0 && with_flushed > 0 {
+            out.tallies.push("state: memtable-only shards beside flushed shards".into());
+        } else if with_flushed == 0 {
+            out.tallies.push("state: nothing flushed anywhere".into());
+        } else if shard_state.iter().all(|s| !s.1) {
+            out.tallies.push("state: everything flushed".into());
+        } else {
+            out.tallies.push("state: every occupied shard has flushed rows, some also memtable rows".into());
+        }
+        let total = rows.len() as u64;
+        let nflushed = rows.iter().filter(|x| x.flushed).count() as u64;
+        let reads = 5 + r.below(5);
+        for _ in 0..reads {
+            let scope: Option<usize> = if r.chance(3, 5) { None } else { Some(r.below(ctxs.len() as u64) as usize) };
+            let asc = r.chance(1, 2);
+            let (lim, off) = match r.below(8) {
+                0 => (total + 3, 0),
+                1 => (total, r.below(3)),
+                _ => *r.pick(&[(1u64, 0u64), (2, 0), (3, 0), (2, 1), (5, 0), (1, 3), (4, 2), (1, 1), (8, 0)]),
+            };
+            // truth by brute force
+            let mut matching: Vec<&TRow> = rows.iter().filter(|x| scope.is_none_or(|c| c == x.ctx)).collect();
+            matching.sort_by_key(|x| x.key);
+            if !asc {
+                matching.reverse();
+            }
+            let truth: Vec<u64> = matching.iter().skip(off as usize).take(lim as usize).map(|x| x.key).collect();
+            // Is the zone pre-selection sound for this read? (`event_per_zone = 1`: one zone per
+            // flushed row; the planner counts flushed rows of *all* contexts up to 10*(lim+off)
+            // and keeps the zones up to that value — rows of other contexts can push a scoped
+            // read's rows beyond the cutoff: C10's finding, not asserted here.)
+            let kk = 10 * (lim + off);
+            let planned = nflushed >= kk && kk > 0;
+            let sound = if !planned {
+                true
+            } else {
+                let mut f: Vec<u64> = rows.iter().filter(|x| x.flushed).map(|x| x.key).collect();
+                f.sort();
+                if !asc {
+                    f.reverse();
+                }
+                let cutoff = f[kk as usize - 1];
+                matching
+                    .iter()
+                    .take((lim + off) as usize)
+                    .all(|x| !x.flushed || if asc { x.key <= cutoff } else { x.key >= cutoff })
+            };
+            if !sound {
+                out.tallies.push("scoped top-k beyond the planner's cutoff (C10 territory): not issued".into());
+                continue;
+            }
+            let text = format!(
+                "QUERY ev{} ORDER BY k{} LIMIT {lim}{}",
+                match scope {
+                    Some(c) => format!(" FOR \"{}\"", ctxs[c]),
+                    None => String::new(),
+                },
+                if asc { "" } else { " DESC" },
+                if off > 0 { format!(" OFFSET {off}") } else { String::new() }
+            );
+            let Some(rep) = sess.cmd(&text) else {
+                out.infra = Some("child died on QUERY".into());
+                return out;
+            };
+            let Some(got_rows) = (if rep.ok() { rows_of(&rep) } else { None }) else {
+                out.infra = Some(format!("{text} answered {}: {}", rep.status_class(), rep.raw));
+                return out;
+            };
+            let got: Vec<u64> = got_rows.iter().map(|x| x.0).collect();
+            optoks.push(format!(
+                "T:{}:{}:{lim}:{off}",
+                match scope {
+                    Some(c) => hexs(&ctxs[c]),
+                    None => "*".into(),
+                },
+                if asc { "a" } else { "d" }
+            ));
+            imps.push(format!("T=[{}]", got.iter().map(|x| x.to_string()).collect::<Vec<_>>().join(",")));
+            out.tallies.push(
+                match (scope.is_some(), planned) {
+                    (false, true) => "unscoped top-k, zone plan possible",
+                    (false, false) => "unscoped top-k, too few flushed rows for a zone plan",
+                    (true, true) => "scoped top-k, zone plan possible",
+                    (true, false) => "scoped top-k, too few flushed rows for a zone plan",
+                }
+                .into(),
+            );
+            if planned && only_mem > 0 {
+                out.tallies.push("top-k read with a memtable-only shard outside the zone plan".into());
+                let mem_in_truth = matching.iter().skip(off as usize).take(lim as usize).any(|x| !x.flushed);
+                if mem_in_truth {
+                    out.tallies.push("… whose true answer holds memtable rows".into());
+                }
+            }
+            if got != truth {
+                // which shards' rows are missing / foreign
+                let missing: Vec<String> = truth
+                    .iter()
+                    .filter(|k| !got.contains(k))
+                    .map(|k| {
+                        let x = rows.iter().find(|x| x.key == *k).unwrap();
+                        format!("k={k} (shard {}, {})", spec_route(&ctxs[x.ctx], n), if x.flushed { "flushed" } else { "memtable" })
+                    })
+                    .collect();
+                out.fails.push(format!("{text}: expected {truth:?}, got {got:?}; missing {missing:?}"));
+            }
+            for (k, id, cc) in &got_rows {
+                if scope.is_some_and(|c| ctxs[c] != *cc) {
+                    out.fails.push(format!("{text}: row k={k} has context {}", hexs(cc)));
+                }
+                if tag_of(*id) as usize != spec_route(cc, n) {
+                    out.fails.push(format!("{text}: k={k} id={id} tag {} but hash%n = {}", tag_of(*id), spec_route(cc, n)));
+                }
+            }
+        }
+        // and the plain reads in the same state
+        let Some(rep) = sess.cmd("QUERY ev") else {
+            out.infra = Some("child died on QUERY".into());
+            return out;
+        };
+        let Some(all) = (if rep.ok() { rows_of(&rep) } else { None }) else {
+            out.infra = Some(format!("QUERY answered {}: {}", rep.status_class(), rep.raw));
+            return out;
+        };
+        optoks.push("QA".into());
+        imps.push(format!("QA={}", show_pairs(all.iter().map(|(k, id, _)| (*k, tag_of(*id))).collect())));
+        let mut want: Vec<u64> = rows.iter().map(|x| x.key).collect();
+        want.sort();
+        let mut got: Vec<u64> = all.iter().map(|x| x.0).collect();
+        got.sort();
+        if want != got {
+            out.fails.push(format!("unscoped: stored keys {want:?}, returned {got:?}"));
+        }
+    }
+    sess.kill();
+    out.op = optoks.join(" ");
+    out.imp = imps.join(" ");
+    if out.fails.is_empty() {
+        let _ = std::fs::remove_dir_all(&root);
+    }
+    out
+}
+
+fn topk_stream(a: &Args) {
+    let mut s = Stream::create(&a.out, "topk");
+    let idxs: Vec<u64> = (0..a.cases).filter(|i| a.only.is_none_or(|o| o == *i)).collect();
+    let results: std::sync::Mutex<BTreeMap<u64, SysOutcome>> = std::sync::Mutex::new(BTreeMap::new());
+    let next = std::sync::atomic::AtomicUsize::new(0);
+    std::thread::scope(|sc| {
+        for _ in 0..6 {
+            sc.spawn(|| loop {
+                let p = next.fetch_add(1, std::sync::atomic::Ordering::SeqCst);
+                if p >= idxs.len() {
+                    break;
+                }
+                let o = run_topk_case(a, idxs[p]);
+                results.lock().unwrap().insert(idxs[p], o);
+            });
+        }
+    });
+    for (i, o) in results.into_inner().unwrap() {
+        if let Some(e) = o.infra {
+            eprintln!("topk case {i}: infrastructure: {e}");
+            std::process::exit(3);
+        }
+        for t in &o.tallies {
+            s.tally(t);
+        }
+        s.case(&o.op, &o.imp, o.stores_ok > 0);
+        if o.fails.is_empty() {
+            s.oracle_ok();
+        } else {
+            s.oracle_fail(i, "-", &format!("{} :: history: {}", o.fails.join(" ;; "), o.op));
+        }
+    }
+    s.finish();
+}
+
 fn sys_stream(a: &Args) {
     let mut s = Stream::create(&a.out, "sys");
     let idxs: Vec<u64> = (0..a.cases).filter(|i| a.only.is_none_or(|o| o == *i)).collect();
@@ -1185,6 +1637,7 @@ fn main() {
         "route" => route_stream(&a),
         "sys" => sys_stream(&a),
         "clock" => clock_stream(&a),
+        "topk" => topk_stream(&a),
         "witness" => witness(&a),
         "witness1025" => witness1025(&a),
         other => {
